@@ -528,6 +528,7 @@ func checkC16(r *Result) {
 	} else {
 		tmd := NewTermer()
 		var forms []string
+		plainLookup := false
 		for _, b := range pd.Blocks {
 			for _, in := range b.Instrs {
 				if mu, ok := in.(*ssa.MapUpdate); ok {
@@ -535,6 +536,11 @@ func checkC16(r *Result) {
 					switch {
 					case v.Op == "-" && len(v.Args) == 2 && v.Args[0].Contains("lookup") && v.Args[1].Contains("GetPower"):
 						forms = append(forms, "old-new")
+						if bo, ok := mu.Value.(*ssa.BinOp); ok {
+							if lk, ok := bo.X.(*ssa.Lookup); ok && !lk.CommaOk {
+								plainLookup = true
+							}
+						}
 					case v.Op == "neg" && v.Contains("GetPower"):
 						forms = append(forms, "-new")
 					case (v.Op == "convert" || strings.HasPrefix(v.Op, "convert") || strings.HasPrefix(v.Op, "call:") || strings.HasPrefix(v.Op, "changetype")) && v.Contains("GetPower") && !v.Contains("lookup"):
@@ -546,7 +552,9 @@ func checkC16(r *Result) {
 			}
 		}
 		sort.Strings(forms)
-		r.check(fmt.Sprint(forms) == "[-new old old-new]", "UPDATE-RULE", "(x/bridge/keeper.Keeper).PowerDiff # per-address entries: old power, old - new where both exist, -new for a new validator", P.Pos(pd.Pos()), fmt.Sprint(forms))
+		// `powers[k] -= new` reads a missing key as zero: the single form old-new then covers the new validator as well
+		okForms := fmt.Sprint(forms) == "[-new old old-new]" || (fmt.Sprint(forms) == "[old old-new]" && plainLookup)
+		r.check(okForms, "UPDATE-RULE", "(x/bridge/keeper.Keeper).PowerDiff # per-address entries: old power, old - new where both exist, -new for a new validator", P.Pos(pd.Pos()), fmt.Sprint(forms))
 	}
 	// PowerDiff: the shift is the sum of the absolute per-address changes (gains and losses of different validators do not
 	// cancel), relative to the old set's total power
